@@ -1113,7 +1113,7 @@ private:
                 ++it;
             }
 
-            if (*it > zmax)
+            if (it != super->data.end() && *it > zmax)
                 it = super->data.end();
         }
 
